@@ -10,6 +10,15 @@ BASE = ("cd /repo && env -u TRACKLIB_VERIF_TRACE /venv/bin/python -m pytest -ra 
 
 # pid -> (module(s), technique, level text, level note, design ref)
 CHECKS = {
+    "C12": ("OptPartition", "TLA+ model: brute-force optimum over all strictly increasing lists (definition) + transcription of the "
+            "interval DP and backtracking, checked by TLC for every small matrix in both directions (pinned mode tests refuted); "
+            "lists recorded from optimalPartition / optimalSegmentation / optimalSimplification judged by "
+            "OptPartitionTrace.tla (code->spec)",
+            "TLC: DP = brute force for every {0,1,2}-valued symmetric matrix with n <= 5 (thorough also {0,1}, n = 6, 7), both "
+            "directions; the real functions are run on all those matrices and on random dyadic real-valued ones to n = 12 and "
+            "every returned list must be strictly increasing from the first to the last candidate with cost equal to the "
+            "optimum over all 2^(n-2) lists.",
+            "TLC 1.8; (n+1)x(n+1) matrix addresses candidates 0..n-1; dyadic costs k/1024", "5/C12"),
     "C10": ("MapMatch", "TLA+ composition MapMatch.tla (Projection + curvilinear abscissa on integer-leg geometries + radius filter): "
             "TLC checks that every candidate state of the transcribed construction is accepted; one record per real "
             "mapOnNetwork call (states held by hmm_inference, observations before/after) is judged by MapMatchTrace.tla "
